@@ -32,6 +32,7 @@ const k11Src = `package k11
 
 import (
 	"slices"
+	"strconv"
 	"strings"
 
 	"github.com/goghcrow/go-co"
@@ -62,6 +63,46 @@ func Shapes(n int) int {
 %s
 	xs := []int{n}
 	return %s
+}
+
+// closures that are the function of a deferred call: recover() works only in the deferred function itself
+var Swallowed int
+
+func rescue() int {
+	if r := recover(); r != nil {
+		Swallowed++
+	}
+	return 0
+}
+
+func rescueArg(k int) int { return k + rescue() }
+
+func runDeferred(n int) {
+	defer func() int { return rescue() }()
+	if n < 0 {
+		panic("negative")
+	}
+}
+
+func runDeferredArg(n int) {
+	defer func(k int) int { return rescueArg(k) }(n)
+	if n < 0 {
+		panic("negative")
+	}
+}
+
+func try(run func(int), n int) (res string) {
+	defer func() {
+		if r := recover(); r != nil {
+			res = "panic"
+		}
+	}()
+	run(n)
+	return "ok"
+}
+
+func Probe() string {
+	return try(runDeferred, 1) + " " + try(runDeferred, -1) + " " + try(runDeferredArg, 1) + " " + try(runDeferredArg, -1) + " swallowed=" + strconv.Itoa(Swallowed)
 }
 
 // a generator: the file is processed, and its lowered range loop tests the generated iterator variable
@@ -171,11 +212,47 @@ func k11(args []string) {
 				iterShape.Impl = "reduced"
 			}
 			shapes = append(shapes, iterShape)
+			// the function literals of the deferred calls in runDeferred / runDeferredArg
+			for _, d := range f.Decls {
+				fd, ok := d.(*ast.FuncDecl)
+				if !ok || !strings.HasPrefix(fd.Name.Name, "runDeferred") {
+					continue
+				}
+				sh := k11Shape{Name: "defer:" + fd.Name.Name, Req: "(k11 declared same sametype deferred)", Impl: "missing"}
+				ast.Inspect(fd, func(n ast.Node) bool {
+					if ds, ok := n.(*ast.DeferStmt); ok {
+						sh.Impl = "reduced"
+						if _, isLit := ds.Call.Fun.(*ast.FuncLit); isLit {
+							sh.Impl = "kept"
+						}
+					}
+					return true
+				})
+				sh.Code = map[string]string{"runDeferred": "defer func() int { return rescue() }()", "runDeferredArg": "defer func(k int) int { return rescueArg(k) }(n)"}[fd.Name.Name]
+				shapes = append(shapes, sh)
+			}
 		}
 		b := exec.Command("go", "build", "./out/k11")
 		b.Dir = mod
 		if bo, berr := b.CombinedOutput(); berr != nil {
 			res["build"] = tail(string(bo), 600)
+		} else {
+			// run the plain functions of the file from the source package and from the generated package; inlining
+			// is switched off for the module's packages: with it the toolchain merges a result-returning deferred
+			// closure into the wrapper it generates for the defer statement, which hides the frame recover() looks at
+			run := map[string]string{}
+			for _, v := range [][2]string{{"src", "scratch/src/k11"}, {"gen", "scratch/out/k11"}} {
+				d := filepath.Join(mod, "run_"+v[0])
+				os.MkdirAll(d, 0o755)
+				os.WriteFile(filepath.Join(d, "main.go"), []byte("package main\n\nimport (\n\tp \""+v[1]+"\"\n)\n\nfunc main() { println(p.Probe()) }\n"), 0o644)
+				for _, fl := range [][2]string{{"noinline", "-gcflags=scratch/...=-l"}, {"default", "-gcflags=scratch/...="}} {
+					r := exec.Command("go", "run", fl[1], "./run_"+v[0])
+					r.Dir = mod
+					ro, _ := r.CombinedOutput()
+					run[v[0]+":"+fl[0]] = strings.TrimSpace(tail(string(ro), 300))
+				}
+			}
+			res["run"] = run
 		}
 	}
 	res["shapes"] = shapes
